@@ -266,6 +266,9 @@ class ProgGen:
 
     # -- data expressions
     def lit(self):
+        if self.prec in ("f32", "f64", "R") and self.o.get("odd_literals", True) and self.chance(6):
+            # literals whose printed form uses exponent notation or many digits
+            return self.pick(["1e-07", "1.25e-05", "0.0001", "1e-12", "0.1", "0.2659615202676218", "1e+20", "123456.75"])
         return self.pick(["0.0", "1.0", "2.0", "3.0", "0.5", "-1.0", "4.0"]) if self.prec not in ("i8", "i32", "ui8", "ui16") else self.pick(["0.0", "1.0", "2.0", "3.0"])
 
     def readable(self, sc, prec=None):
